@@ -97,12 +97,45 @@ def na():
     return '\n'.join(rows)
 
 
+def tiers():
+    rows = []
+    thor = {}
+    try:
+        thor = json.load(open(os.path.join(V, 'thorough_runs.json')))['runs']
+    except Exception:
+        pass
+    ids = [json.loads(x)['id'] for x in open(
+        os.path.join(V, 'properties.jsonl'))]
+    for pid in ids:
+        evp = os.path.join(V, 'evidence', pid + '.json')
+        if not os.path.exists(evp):
+            continue
+        ev = json.load(open(evp))
+        cov = ev.get('coverage', {})
+        t = thor.get(pid)
+        if t is None:
+            tt = 'not run end to end in this session (bounds sized from the quick tier)'
+        elif t['exit'] != 0:
+            tt = f"stopped after {t['wall_s']} s (bounds reduced afterwards)"
+        else:
+            tt = (f"{t['wall_s']} s, {t['discharged']}/{t['obligations']} "
+                  f"obligations" + (f", {t['inconclusive']} inconclusive "
+                                    "(bounds reduced afterwards)"
+                                    if t['inconclusive'] else ''))
+        rows.append(f"| {pid} | {ev.get('wall_s', '')} s, "
+                    f"{cov.get('discharged', '')}/{cov.get('obligations', '')}"
+                    f" obligations, {cov.get('states', '')} paths | {tt} |")
+    head = ('| id | quick tier (last evidence run) | thorough tier (last '
+            'end-to-end run) |\n|---|---|---|')
+    return head + '\n' + '\n'.join(rows)
+
+
 def main():
     path = os.path.join(V, 'DESIGN.md')
     s = open(path).read()
     for name, fn in (('claimed', claimed), ('fixed', lambda: findings('fixed')),
                      ('known', lambda: findings('known')), ('seeds', seeds),
-                     ('na', na)):
+                     ('na', na), ('tiers', tiers)):
         a, b = f'<!-- GEN:{name} -->', f'<!-- /GEN:{name} -->'
         if a in s and b in s:
             i, j = s.index(a) + len(a), s.index(b)
